@@ -131,16 +131,14 @@ func c22RunReader(tb ev.TB, rec *ev.Rec, c *c22RCase, gen string) {
 	pos := 0
 	lastRead := ""   // kind of the immediately preceding successful consuming op
 	lastRuneSize := 0
-	var crossedRefill, longLine, unread, crStraddle, sawEOF bool
+	var crossedRefill, longLine, unread, crStraddle, sawEOF, unreadAfterLine bool
 	stop := false
 	fail := func(step int, key, format string, args ...any) {
 		cc := *c
 		if step+1 < len(cc.Ops) {
 			cc.Ops = cc.Ops[:step+1]
 		}
-		if !rec.Fail(tb, key, map[string]any{"reader_case": cc, "step": step}, "reader buf=%d chunks=%v step %d %+v: %s", c.Buf, c.Chunks, step, c.Ops[step], fmt.Sprintf(format, args...)) {
-			rec.Excluded("known-finding:" + key)
-		}
+		rec.Fail(tb, key, map[string]any{"reader_case": cc, "step": step}, "reader buf=%d chunks=%v step %d %+v: %s", c.Buf, c.Chunks, step, c.Ops[step], fmt.Sprintf(format, args...))
 	}
 	next := func(n int) []byte { // the next n bytes of the stream from pos (shorter at the end)
 		e := pos + n
@@ -225,6 +223,13 @@ func c22RunReader(tb ev.TB, rec *ev.Rec, c *c22RCase, gen string) {
 			if e1 == nil {
 				pos--
 				unread = true
+				if prevRead == "Line" {
+					// "UnreadByte unreads the last byte": after ReadSlice/ReadLine-less line ops that is the last byte handed out
+					unreadAfterLine = true
+					if pk, _ := br.Peek(1); len(pk) != 1 || pk[0] != S[pos] {
+						bad("unreadbyte-after-readslice-wrong-byte", "UnreadByte after %s pushed back %x, the last byte read was %02x", c.Ops[i-1].Op, pk, S[pos])
+					}
+				}
 			}
 		case "ReadRune":
 			r1, s1, e1 := br.ReadRune()
@@ -356,6 +361,7 @@ func c22RunReader(tb ev.TB, rec *ev.Rec, c *c22RCase, gen string) {
 		}
 		if streamKey != "" {
 			fail(i, streamKey, "%s", streamMsg)
+			rec.Excluded("rest-of-script-after-known-finding:" + streamKey)
 			stop = true // positions are no longer comparable
 			break
 		}
@@ -398,6 +404,7 @@ func c22RunReader(tb ev.TB, rec *ev.Rec, c *c22RCase, gen string) {
 	add(longLine, "r-line-longer-than-buffer")
 	add(crStraddle, "r-cr-straddles-buffer-end")
 	add(unread, "r-unread")
+	add(unreadAfterLine, "r-unreadbyte-after-readslice")
 	add(sawEOF, "r-reached-eof")
 	add(c.WT, "r-src-writerto")
 	add(c.EOFData, "r-eof-with-data")
@@ -440,9 +447,7 @@ func c22RunWriter(tb ev.TB, rec *ev.Rec, c *c22WCase, gen string) {
 		if step+1 < len(cc.Ops) {
 			cc.Ops = cc.Ops[:step+1]
 		}
-		if !rec.Fail(tb, key, map[string]any{"writer_case": cc, "step": step}, "writer buf=%d step %d %s: %s", c.Buf, step, c.Ops[step].Op, fmt.Sprintf(format, args...)) {
-			rec.Excluded("known-finding:" + key)
-		}
+		rec.Fail(tb, key, map[string]any{"writer_case": cc, "step": step}, "writer buf=%d step %d %s: %s", c.Buf, step, c.Ops[step].Op, fmt.Sprintf(format, args...))
 	}
 	for i, op := range c.Ops {
 		var data []byte
